@@ -42,6 +42,11 @@ type rrd struct {
 	Soa    bool   `json:"soa,omitempty"`
 	Serial uint32 `json:"serial,omitempty"`
 	Pid    int    `json:"pid,omitempty"`
+	// Pad > 0: a TXT record p<pid>.z.example. whose wire form is exactly Pad octets (rich.go)
+	Pad int `json:"pad,omitempty"`
+	// Rich: a record of any registered type (rich.go); Txt is its text for the replay input
+	Rich dns.RR `json:"-"`
+	Txt  string `json:"rr,omitempty"`
 }
 
 func S(serial uint32) rrd { return rrd{Soa: true, Serial: serial} }
@@ -58,26 +63,71 @@ func (r rrd) RR() dns.RR {
 		return &dns.SOA{Hdr: dns.RR_Header{Name: zone, Rrtype: dns.TypeSOA, Class: dns.ClassINET, Ttl: 3600},
 			Ns: "ns." + zone, Mbox: "h." + zone, Serial: r.Serial, Refresh: 1, Retry: 2, Expire: 3, Minttl: 4}
 	}
+	if r.Rich != nil {
+		return dns.Copy(r.Rich) // the sender's own copy: nothing the receiver holds shares memory with it
+	}
+	if r.Pad > 0 {
+		return padRR(r.Pid, r.Pad)
+	}
 	return &dns.A{Hdr: dns.RR_Header{Name: fmt.Sprintf("r%d.%s", r.Pid, zone), Rrtype: dns.TypeA, Class: dns.ClassINET, Ttl: 60},
 		A: net.IPv4(10, byte(r.Pid>>16), byte(r.Pid>>8), byte(r.Pid)).To4()}
 }
-func showRR(r dns.RR) string {
-	switch v := r.(type) {
-	case *dns.SOA:
-		return fmt.Sprintf("s%d", v.Serial)
-	case *dns.A:
-		ip := v.A.To4()
-		if ip == nil {
-			return "q"
+// wireKey: the uncompressed wire form of a record, as a map key ("" when it
+// cannot be packed)
+func wireKey(r dns.RR) (k string) {
+	defer func() {
+		if recover() != nil {
+			k = ""
 		}
-		return fmt.Sprintf("a%d", int(ip[1])<<16|int(ip[2])<<8|int(ip[3]))
+	}()
+	if r == nil {
+		return ""
+	}
+	buf := make([]byte, dns.Len(r)+16)
+	off, err := dns.PackRR(r, buf, 0, nil, false)
+	if err != nil {
+		buf = make([]byte, 1<<17)
+		if off, err = dns.PackRR(r, buf, 0, nil, false); err != nil {
+			return ""
+		}
+	}
+	return string(buf[:off])
+}
+
+// recTable: wire form -> name (s<serial>, a<pid>) of every record the case
+// transmits.  A received record is named after the transmitted record it is
+// octet for octet (owner, type, class, TTL, RDATA) equal to, "q" when there is
+// none.
+type recTable map[string]string
+
+func (c xcase) table() recTable {
+	t := recTable{}
+	add := func(x rrd) {
+		if k := wireKey(x.RR()); k != "" {
+			if _, ok := t[k]; !ok {
+				t[k] = x.String()
+			}
+		}
+	}
+	for _, r := range c.Reads {
+		for _, x := range r.RRs {
+			add(x)
+		}
+	}
+	add(A(1)) // the records of a cut frame that has none of its own (buildStream)
+	add(A(2))
+	return t
+}
+func (t recTable) showRR(r dns.RR) string {
+	if n, ok := t[wireKey(r)]; ok {
+		return n
 	}
 	return "q"
 }
-func showRRs(rs []dns.RR) string {
+func (t recTable) showRRs(rs []dns.RR) string {
 	s := make([]string, len(rs))
 	for i, r := range rs {
-		s[i] = showRR(r)
+		s[i] = t.showRR(r)
 	}
 	return strings.Join(s, ",")
 }
@@ -125,6 +175,7 @@ type xcase struct {
 	Stall   bool       `json:"stall"`   // at the end of the script reads time out instead of EOF
 	Family  string     `json:"family"`
 	Alg     string     `json:"alg,omitempty"` // HMAC algorithm of query and envelopes ("" = hmac-sha256.)
+	Compress bool      `json:"compress,omitempty"` // envelopes packed with name compression
 }
 
 func (c xcase) m0tag() int {
@@ -305,6 +356,7 @@ func buildFrame(c xcase, r readSpec, macs map[int]string, now int64) []byte {
 	m.Authoritative = true
 	m.Rcode = r.Rcode
 	m.Question = []dns.Question{question(c.Kind)}
+	m.Compress = c.Compress
 	for _, x := range r.RRs {
 		m.Answer = append(m.Answer, x.RR())
 	}
@@ -437,7 +489,10 @@ func buildStream(c xcase, query []byte) ([]byte, []int) {
 
 // ---------------------------------------------------------------- running the real Transfer.In
 type obs struct {
-	items    []string // "rrs:err"
+	items    []string // "rrs:err", rendered after the channel was closed
+	atRecv   []string // the same, rendered at the moment the item was received
+	envs     []*dns.Envelope
+	bad      []string // text of received records that are none of the transmitted ones
 	errs     []string
 	nrr      []int
 	closed   bool
@@ -486,7 +541,30 @@ func mkQuery(c xcase) *dns.Msg {
 	return q
 }
 
-func collect(ch chan *dns.Envelope, atClose func() int) (o obs) {
+// collect keeps every envelope it receives, as a caller of Transfer.In that
+// assembles the zone does.  What was delivered is rendered twice: at the
+// moment of reception and again after the channel was closed, i.e. after every
+// later envelope has been read - the records handed out must still be the
+// transmitted ones then.
+func collect(c xcase, ch chan *dns.Envelope, atClose func() int) (o obs) {
+	t := c.table()
+	defer func() {
+		for _, e := range o.envs {
+			cl := errClass(e.Error)
+			o.items = append(o.items, t.showRRs(e.RR)+":"+cl)
+			for _, r := range e.RR {
+				if t.showRR(r) == "q" && len(o.bad) < 4 {
+					o.bad = append(o.bad, Protect(func() string {
+						s := fmt.Sprint(r)
+						if len(s) > 300 {
+							s = s[:300] + "..."
+						}
+						return s
+					}))
+				}
+			}
+		}
+	}()
 	for {
 		select {
 		case e, ok := <-ch:
@@ -496,7 +574,8 @@ func collect(ch chan *dns.Envelope, atClose func() int) (o obs) {
 				return
 			}
 			cl := errClass(e.Error)
-			o.items = append(o.items, showRRs(e.RR)+":"+cl)
+			o.envs = append(o.envs, e)
+			o.atRecv = append(o.atRecv, t.showRRs(e.RR)+":"+cl)
 			o.errs = append(o.errs, cl)
 			o.nrr = append(o.nrr, len(e.RR))
 		case <-time.After(20 * time.Second):
@@ -517,7 +596,7 @@ func runScripted(c xcase) obs {
 	if err != nil {
 		return obs{inErr: err.Error()}
 	}
-	o := collect(ch, func() int { sc.mu.Lock(); defer sc.mu.Unlock(); return sc.closed })
+	o := collect(c, ch, func() int { sc.mu.Lock(); defer sc.mu.Unlock(); return sc.closed })
 	o.frames = sc.framesConsumed()
 	// A frame cut short is one class of failed read in the model.  Depending on
 	// where the cut falls the error is EOF, unexpected EOF, an unpack error or
@@ -526,6 +605,7 @@ func runScripted(c xcase) obs {
 		st["cut_frame_error_was_"+o.errs[k-1]]++
 		o.errs[k-1] = "read"
 		o.items[k-1] = o.items[k-1][:strings.LastIndex(o.items[k-1], ":")] + ":read"
+		o.atRecv[k-1] = o.atRecv[k-1][:strings.LastIndex(o.atRecv[k-1], ":")] + ":read"
 	}
 	sc.mu.Lock()
 	o.readsAfterClose = sc.readsAfterClose
@@ -550,6 +630,9 @@ var st = map[string]int{}
 func check(c xcase, o obs, ex *expect) {
 	st["transfers_checked"]++
 	in := map[string]any{"case": c, "observed": o.items}
+	if len(o.bad) > 0 {
+		in["received_records_that_were_not_transmitted"] = o.bad
+	}
 	if o.inErr != "" {
 		Viol("C15/in-error", "Transfer.In returned an error on a writable connection: "+o.inErr, in)
 		return
@@ -577,6 +660,13 @@ func check(c xcase, o obs, ex *expect) {
 	if len(o.items) == 0 {
 		Viol("C15/closed-without-item", "channel closed without any envelope or error", in)
 		return
+	}
+	for i := range o.items {
+		if o.items[i] != o.atRecv[i] {
+			in["observed_when_received"] = o.atRecv
+			Viol("C15/records-changed-after-delivery", fmt.Sprintf("the records of envelope %d were %s when it was received and are %s after the rest of the transfer was read: what was delivered is no longer what was transmitted", i, o.atRecv[i], o.items[i]), in)
+			break
+		}
 	}
 	if ex == nil {
 		return
@@ -1336,6 +1426,9 @@ func runC15(r *Rng, tier string, n int) {
 		}
 	}
 
+	// ---- R, S. records of every type kept until the end of the transfer; envelope lengths at the limits (rich.go)
+	richFamilies(r, thorough)
+
 	// ---- H. real loopback TCP server using Transfer.Out
 	loopback(r, thorough)
 
@@ -1358,34 +1451,93 @@ func loopback(r *Rng, thorough bool) {
 				c := base(kind, tsig, "loopback", r)
 				c.Chunk, c.Stall = 0, false
 				c.Reads = goodReads(c, envs, tsig)
-				o, infra := runLoopback(c, envs)
-				if infra != "" {
-					// infrastructure (socket) problem: retry once, never a verdict
-					o, infra = runLoopback(c, envs)
-				}
-				if infra != "" {
-					st["loopback_infra_failures"]++
-					fmt.Fprintln(os.Stderr, "loopback infrastructure failure:", infra)
-					continue
-				}
-				st["transfers_checked"]++
-				st["family_loopback"]++
-				in := map[string]any{"case": c, "observed": o.items, "via": "Transfer.Out over loopback TCP"}
-				if !o.closed {
-					Viol("C15/channel-not-closed", "channel not closed", in)
-					continue
-				}
-				ok := len(o.items) == len(envs)
-				for i := 0; ok && i < len(envs); i++ {
-					ok = o.items[i] == showRrds(envs[i])+":-"
-				}
-				if !ok {
-					Viol("C15/exact-loopback", "Transfer.Out -> Transfer.In did not deliver exactly the transmitted envelopes", in)
-				}
-				o.frames = len(o.items)
-				emit(c, o)
+				loopOne(c, envs, true)
 			}
 		}
+	}
+	// zones of records of every type, and envelopes of the limit lengths, sent
+	// by Transfer.Out
+	g := newRichGen(r)
+	types := zoneTypes()
+	nz := 6
+	if thorough {
+		nz = 60
+	}
+	for z := 0; z < nz; z++ {
+		var body []rrd
+		for i := 2 + r.Intn(12); i > 0; i-- {
+			body = append(body, g.any(types))
+		}
+		body = append(body, g.svcRecords()[r.Intn(10)])
+		kind := []string{"axfr", "ixfr"}[z%2]
+		stream := append(append([]rrd{S(5)}, body...), S(5))
+		if z%4 == 3 {
+			h := len(body) / 2
+			stream = append(append(append(append([]rrd{S(5), S(3)}, body[:h]...), S(5)), body[h:]...), S(5))
+		}
+		envs := randomComposition(r, stream)
+		c := base(kind, z%3 == 0, "loopback-rich", r)
+		c.Chunk, c.Stall = 0, false
+		c.Reads = goodReads(c, envs, c.Tsig)
+		loopOne(c, envs, z%2 == 0)
+	}
+	for i, L := range []int{511, 512, 513, 4095, 4096, 4097, 16383, 16384, 16385, 32767, 32768, 32769, 65533, 65534, 65535} {
+		for _, tsig := range []bool{false, true} {
+			if !thorough && tsig && i%3 != 2 {
+				continue
+			}
+			envs := [][]rrd{{S(5), g.pad()}, {g.pad(), g.any(types)}, {g.pad(), S(5)}}
+			c := base("axfr", tsig, "loopback-size", r)
+			c.Chunk, c.Stall = 0, false
+			c.Reads = cloneReads(goodReads(c, envs, tsig))
+			// the sender (Transfer.Out) signs itself: L is the length with its TSIG record
+			ok := true
+			for k := range envs {
+				ok = ok && sizeTo(&c, k, L)
+			}
+			if !ok {
+				st["loopback_size_out_of_reach"]++
+				continue
+			}
+			for k := range envs {
+				envs[k] = c.Reads[k].RRs
+			}
+			loopOne(c, envs, false)
+		}
+	}
+}
+
+func loopOne(c xcase, envs [][]rrd, emitIt bool) {
+	o, infra := runLoopback(c, envs)
+	if infra != "" {
+		// infrastructure (socket) problem: retry once, never a verdict
+		o, infra = runLoopback(c, envs)
+	}
+	if infra != "" {
+		st["loopback_infra_failures"]++
+		fmt.Fprintln(os.Stderr, "loopback infrastructure failure:", infra)
+		return
+	}
+	st["transfers_checked"]++
+	st["family_"+c.Family]++
+	in := map[string]any{"case": c, "observed": o.items, "via": "Transfer.Out over loopback TCP"}
+	if len(o.bad) > 0 {
+		in["received_records_that_were_not_transmitted"] = o.bad
+	}
+	if !o.closed {
+		Viol("C15/channel-not-closed", "channel not closed", in)
+		return
+	}
+	ok := len(o.items) == len(envs)
+	for i := 0; ok && i < len(envs); i++ {
+		ok = o.items[i] == showRrds(envs[i])+":-"
+	}
+	if !ok {
+		Viol("C15/exact-loopback", "Transfer.Out -> Transfer.In did not deliver exactly the transmitted envelopes", in)
+	}
+	o.frames = len(o.items)
+	if emitIt {
+		emit(c, o)
 	}
 }
 
@@ -1439,7 +1591,7 @@ func runLoopback(c xcase, envs [][]rrd) (obs, string) {
 	if err != nil {
 		return obs{}, "dial/write: " + err.Error()
 	}
-	o := collect(ch, func() int { return 1 })
+	o := collect(c, ch, func() int { return 1 })
 	if o.infra != "" {
 		return o, o.infra
 	}
